@@ -1,2 +1,69 @@
-(* C14 *)
-From Grex Require Import Base.Str.
+(* C14 — the Python binding: the setters forward to the library (with the library's error
+   messages for non-positive thresholds), and the \u{...} escapes of the library output are
+   rewritten to Python's \uXXXX / \UXXXXXXXX, which denote the same code point.
+
+   py_setter / py_apply / py_to_lib and the constants of the rewriting regex are GENERATED
+   from src/python.rs (gen/SrcPython.v); py_rewrite models replace_unicode_escape_sequences
+   (Model/PyRewrite.v). *)
+From Coq Require Import ZArith.
+From Grex Require Import Base.Str Model.Config Model.Builder Model.Expr Model.PyRewrite.
+From Grex Require Import Proofs.Wrappers.
+From GrexGen Require Import SrcConsts SrcBuilder SrcPython.
+
+(* every Python setter is the library setter (arguments in range: positive thresholds) *)
+Theorem C14_setters : forall s c, py_in_range s -> py_apply s c = apply_setter (py_to_lib s) c.
+Proof. exact Wrappers.C14_setters. Qed.
+
+Theorem C14_setters_total : forall s c, py_apply s c = apply_setter (py_to_lib s) c.
+Proof. exact Wrappers.C14_setters_total. Qed.
+
+(* non-positive thresholds raise ValueError with the library's messages *)
+Theorem C14_errors : forall (q : Z) c, (q <= 0)%Z ->
+  py_apply (py_with_minimum_repetitions q) c = inr msg_MINIMUM_REPETITIONS_MESSAGE /\
+  py_apply (py_with_minimum_substring_length q) c = inr msg_MINIMUM_SUBSTRING_LENGTH_MESSAGE /\
+  apply_setter (with_minimum_repetitions 0) c = inr msg_MINIMUM_REPETITIONS_MESSAGE /\
+  apply_setter (with_minimum_substring_length 0) c = inr msg_MINIMUM_SUBSTRING_LENGTH_MESSAGE.
+Proof. exact Wrappers.C14_errors. Qed.
+
+(* the escape of one code point is rewritten to Python's escape of that code point *)
+Theorem C14_rewrite_cp : forall c, (c <= 1114111)%N -> py_rewrite (esc_unicode c) = py_escape c.
+Proof. exact Wrappers.C14_rewrite_cp. Qed.
+
+(* ... also in context, and text without a backslash is left alone *)
+Theorem C14_rewrite_esc : forall c rest, (c <= 1114111)%N ->
+  py_rewrite (esc_unicode c ++ rest) = py_escape c ++ py_rewrite rest.
+Proof. exact Wrappers.C14_rewrite_esc. Qed.
+
+Theorem C14_rewrite_prefix : forall a b : str, ~ In 92%N a -> py_rewrite (a ++ b) = a ++ py_rewrite b.
+Proof. exact Wrappers.C14_rewrite_prefix. Qed.
+
+(* a whole output made of backslash-free text and escapes *)
+Theorem C14_rewrite_pieces : forall ps,
+  Forall piece_ok ps -> py_rewrite (flat_map piece_src ps) = flat_map piece_py ps.
+Proof. exact Wrappers.C14_rewrite_pieces. Qed.
+
+(* Python's escape reads back as the code point; its shape *)
+Theorem C14_unescape : forall c, (c < 4294967296)%N -> py_unescape (py_escape c) = Some c.
+Proof. exact Wrappers.C14_unescape. Qed.
+
+Theorem C14_escape_shape : forall c,
+  (exists h, py_escape c = [92%N; 117%N] ++ h /\ length h = 4 /\ (c <= 65535)%N) \/
+  (exists h, py_escape c = [92%N; 85%N] ++ h /\ length h = 8 /\ (65535 < c)%N).
+Proof. exact py_escape_shape. Qed.
+
+(* the constants of the rewriting regex in the source are the ones the model assumes *)
+Theorem C14_py_consts :
+  Nat.leb py_rx_min_digits 1 = true /\ Nat.leb 6 py_rx_max_digits = true /\
+  py_bmp_limit = 65535%N /\ py_bmp_width = 4 /\ py_astral_width = 8.
+Proof. exact py_consts_ok. Qed.
+
+Print Assumptions C14_setters.
+Print Assumptions C14_setters_total.
+Print Assumptions C14_errors.
+Print Assumptions C14_rewrite_cp.
+Print Assumptions C14_rewrite_esc.
+Print Assumptions C14_rewrite_prefix.
+Print Assumptions C14_rewrite_pieces.
+Print Assumptions C14_unescape.
+Print Assumptions C14_escape_shape.
+Print Assumptions C14_py_consts.
